@@ -209,6 +209,9 @@ func applyFS(fs hackpadfs.FS, op Op) (res Res) {
 		res.Err = hackpadfs.Chown(fs, op.P, os.Getuid(), os.Getgid())
 	case "chtimes":
 		t := time.Unix(op.Sec, 0)
+		if op.Sec == 0 {
+			t = time.Time{} // the zero Time (a degenerate argument value)
+		}
 		res.Err = hackpadfs.Chtimes(fs, op.P, t, t)
 	case "stat":
 		fi, err := hackpadfs.Stat(fs, op.P)
@@ -316,6 +319,9 @@ func ApplyOS(root string, op Op) (res Res) {
 		res.Err = os.Chown(p, os.Getuid(), os.Getgid())
 	case "chtimes":
 		t := time.Unix(op.Sec, 0)
+		if op.Sec == 0 {
+			t = time.Time{}
+		}
 		res.Err = os.Chtimes(p, t, t)
 	case "stat", "lstatorstat", "open":
 		fi, err := os.Stat(p)
